@@ -132,7 +132,7 @@ def systematic_jobs(tier, seed, ctx):
     if tier == "thorough":
         # fault_enumeration part: every fault site of two sub-trees, once per site kind and errno class
         for src in ("symplyphysics/laws/kinematics", "symplyphysics/conditions", "symplyphysics/laws/nuclear"):
-            n_pages = len(expected_pages(src, ["core"])) + 3
+            n_pages = len(expected_pages(os.path.join(core.REPO, src), ["core"])) + 3  # the driver does not run in /repo
             for site in ("wopen", "write", "close", "mkdir", "ropen", "read"):
                 for k in range(1, n_pages + (8 if site in ("ropen", "read") else 1)):
                     jobs.append(_job(seed, f"sys:enum:{src}:{site}:{k}", ENVS[(k + len(site)) % len(ENVS)], [
